@@ -42,6 +42,9 @@ RESCALE = {
     "x-1000": lambda x: x - 1000.0,
     "atan": np.arctan,
     "exp": np.exp,
+    # strictly increasing in float64 but the images lie closer together than float32 can resolve
+    "1e5+x/1000": lambda x: 1e5 + x / 1000.0,
+    "1+1e-9x": lambda x: 1.0 + 1e-9 * x,
 }
 SCORE_DTYPES = ["float64", "float32", "int8", "int16", "int32", "int64", "uint8"]
 LABEL_DTYPES = ["bool", "int", "float"]
